@@ -51,8 +51,6 @@ TRIAGE = {
         "seconds(i64) + nanoseconds(< 10^9): time::Duration holds i64 seconds plus a sub-second part, the sum of a whole-second value and a sub-second value never leaves the range (checked on the binary with T#9223372036854775807.5s)",
     D + "time::DurationLiteral::milliseconds|call:<time::duration::Duration as core::ops::arith::Add>::add#1": "seconds(whole/1000) with whole/1000 < 2^54, plus < 1 s: far inside the range",
     D + "time::DurationLiteral::milliseconds|call:<time::duration::Duration as core::ops::arith::Add>::add#2": "as #1",
-    D + "time::DurationLiteral::plus|call:<time::duration::Duration as core::ops::arith::Add>::add#1":
-        "only reached from the compound alternatives of days/hours/minutes/seconds (`1d2h`), which never match today because `d2h` lexes as one identifier; no reaching input exists (checked on the binary). Revisit if the lexer changes.",
     # --- analyzer -----------------------------------------------------------------------------------
     "ironplc_analyzer::xform_toposort_declarations::DeclarationsGraph::sorted_ids::{closure#1}|call:core::option::Option::unwrap#1":
         "every NodeIndex in the graph was created by add_node, which records it in index_to_id in the same call",
